@@ -7,6 +7,7 @@ use pubgrub::{
     resolve, Dependencies, DependencyProvider, DerivationTree, External, Package, PubGrubError, Term,
 };
 use std::cell::RefCell;
+use std::sync::{Arc, Mutex};
 use std::collections::BTreeMap;
 use std::fmt;
 use std::ops::Bound::{Excluded, Included, Unbounded};
@@ -72,7 +73,7 @@ pub struct Prov<'a, N: Name> {
     pub prio: PrioMode,
     pub fault: Fault,
     pub budget: usize,
-    pub sh: RefCell<Shared>,
+    pub sh: Arc<Mutex<Shared>>,
     pub _n: std::marker::PhantomData<N>,
 }
 
@@ -80,7 +81,7 @@ impl<'a, N: Name> Prov<'a, N> {
     pub fn new(reg: &'a Registry, choose: ChooseMode, prio: PrioMode, script: Vec<u32>, fault: Fault) -> Self {
         let h = match &prio { PrioMode::Hash(s) => *s, _ => 0 };
         Prov { reg, choose, prio, fault, budget: 20000,
-               sh: RefCell::new(Shared { trace: vec![], script, pos: 0, branching: vec![], hash: h }),
+               sh: Arc::new(Mutex::new(Shared { trace: vec![], script, pos: 0, branching: vec![], hash: h })),
                _n: std::marker::PhantomData }
     }
     fn pick(&self, sh: &mut Shared, n: u32) -> u32 {
@@ -101,7 +102,7 @@ impl<'a, N: Name> DependencyProvider for Prov<'a, N> {
     type Err = HErr;
 
     fn should_cancel(&self) -> Result<(), HErr> {
-        let mut sh = self.sh.borrow_mut();
+        let mut sh = self.sh.lock().unwrap_or_else(|e| e.into_inner());
         let k = sh.trace.len();
         if k >= self.budget { sh.trace.push(Ev::Cancel(false)); return Err(HErr("budget")); }
         if self.fault == Fault::ErrAt(k) { sh.trace.push(Ev::Cancel(false)); return Err(HErr("injected")); }
@@ -110,7 +111,7 @@ impl<'a, N: Name> DependencyProvider for Prov<'a, N> {
     }
 
     fn prioritize(&self, p: &N, r: &R) -> i64 {
-        let mut sh = self.sh.borrow_mut();
+        let mut sh = self.sh.lock().unwrap_or_else(|e| e.into_inner());
         let pid = p.id();
         let pr = match &self.prio {
             PrioMode::Static(v) => v.get(pid as usize).copied().unwrap_or(0),
@@ -130,7 +131,7 @@ impl<'a, N: Name> DependencyProvider for Prov<'a, N> {
     }
 
     fn choose_version(&self, p: &N, r: &R) -> Result<Option<u32>, HErr> {
-        let mut sh = self.sh.borrow_mut();
+        let mut sh = self.sh.lock().unwrap_or_else(|e| e.into_inner());
         let k = sh.trace.len();
         let pid = p.id();
         if self.fault == Fault::ErrAt(k) { sh.trace.push(Ev::Choose(pid, r.clone(), ChooseAns::Err)); return Err(HErr("injected")); }
@@ -156,7 +157,7 @@ impl<'a, N: Name> DependencyProvider for Prov<'a, N> {
     }
 
     fn get_dependencies(&self, p: &N, v: &u32) -> Result<Dependencies<N, R, String>, HErr> {
-        let mut sh = self.sh.borrow_mut();
+        let mut sh = self.sh.lock().unwrap_or_else(|e| e.into_inner());
         let k = sh.trace.len();
         let pid = p.id();
         if self.fault == Fault::ErrAt(k) { sh.trace.push(Ev::Deps(pid, *v, DepsAns::Err)); return Err(HErr("injected")); }
@@ -227,8 +228,12 @@ pub fn reg_sx(reg: &Registry) -> String {
 
 pub struct RunOut { pub trace: Vec<Ev>, pub result: String, pub branching: Vec<u32>, pub report: String, pub store: String }
 
-pub fn run_once<N: Name>(reg: &Registry, root: (u32, u32), choose: &ChooseMode, prio: &PrioMode, script: &[u32], fault: &Fault) -> RunOut {
+/// Where a run publishes its provider state, so that the events recorded so far survive a run that hangs.
+pub type Slot = Arc<Mutex<Option<Arc<Mutex<Shared>>>>>;
+
+fn run_once_raw<N: Name>(reg: &Registry, root: (u32, u32), choose: &ChooseMode, prio: &PrioMode, script: &[u32], fault: &Fault, slot: &Slot) -> RunOut {
     let prov: Prov<N> = Prov::new(reg, choose.clone(), prio.clone(), script.to_vec(), fault.clone());
+    *slot.lock().unwrap_or_else(|e| e.into_inner()) = Some(prov.sh.clone());
     let r = std::panic::catch_unwind(std::panic::AssertUnwindSafe(|| resolve(&prov, N::of(root.0), root.1)));
     let mut report = String::new();
     let result = match r {
@@ -249,8 +254,66 @@ pub fn run_once<N: Name>(reg: &Registry, root: (u32, u32), choose: &ChooseMode, 
         Ok(Err(PubGrubError::ErrorRetrievingDependencies { package, version, .. })) => format!("(errdeps {} {})", package.id(), version),
         Ok(Err(PubGrubError::Failure(m))) => format!("(failure {})", if m.contains("incompatible") { 1 } else { 0 }),
     };
-    let sh = prov.sh.into_inner();
-    RunOut { trace: sh.trace, result, branching: sh.branching, report, store: store_sx() }
+    let mut sh = prov.sh.lock().unwrap_or_else(|e| e.into_inner());
+    RunOut { trace: std::mem::take(&mut sh.trace), result, branching: std::mem::take(&mut sh.branching), report, store: store_sx() }
+}
+
+// Every run happens on a long-lived worker thread under a watchdog: a run that does not return within
+// HANG_SECS (the provider's call budget bounds every loop that keeps calling the provider, so this is a
+// loop inside the solver) is abandoned - its thread keeps spinning until the process exits - and reported
+// as the result "(hang)" together with the provider events recorded so far.  After MAX_HANGS abandoned
+// runs the remaining runs are not started and not emitted (result "(skipped)").
+pub const HANG_SECS: u64 = 5;
+const MAX_HANGS: usize = 8;
+static HANGS: std::sync::atomic::AtomicUsize = std::sync::atomic::AtomicUsize::new(0);
+type Task = Box<dyn FnOnce(&Slot) -> RunOut + Send>;
+struct Worker { tx: std::sync::mpsc::Sender<Task>, rx: std::sync::mpsc::Receiver<RunOut>, slot: Slot }
+fn spawn_worker() -> Worker {
+    let (tx, rx_t) = std::sync::mpsc::channel::<Task>();
+    let (tx_o, rx) = std::sync::mpsc::channel();
+    let slot: Slot = Slot::default();
+    let s2 = slot.clone();
+    std::thread::spawn(move || {
+        std::panic::set_hook(Box::new(|_| {}));
+        for t in rx_t { let o = t(&s2); if tx_o.send(o).is_err() { break; } }
+    });
+    Worker { tx, rx, slot }
+}
+thread_local! { static WORKERS: RefCell<Vec<Worker>> = RefCell::new(vec![spawn_worker(), spawn_worker()]); }
+
+fn hang_out(trace: Vec<Ev>) -> RunOut {
+    RunOut { trace, result: "(hang)".into(), branching: vec![], report: String::new(), store: "(store)".into() }
+}
+
+fn unfinished(o: &RunOut) -> bool { o.result == "(hang)" || o.result == "(skipped)" }
+
+/// run the task on worker thread `which` (0 or 1) under the watchdog
+fn guarded(which: usize, task: Task) -> RunOut {
+    use std::sync::atomic::Ordering::SeqCst;
+    if HANGS.load(SeqCst) >= MAX_HANGS { let mut o = hang_out(vec![]); o.result = "(skipped)".into(); return o; }
+    WORKERS.with(|ws| {
+        let mut ws = ws.borrow_mut();
+        *ws[which].slot.lock().unwrap_or_else(|e| e.into_inner()) = None;
+        ws[which].tx.send(task).unwrap();
+        match ws[which].rx.recv_timeout(std::time::Duration::from_secs(HANG_SECS)) {
+            Ok(o) => o,
+            Err(_) => {
+                HANGS.fetch_add(1, SeqCst);
+                let sh = ws[which].slot.lock().unwrap_or_else(|e| e.into_inner()).take();
+                let trace = sh.map(|sh| sh.lock().unwrap_or_else(|e| e.into_inner()).trace.clone()).unwrap_or_default();
+                ws[which] = spawn_worker();
+                hang_out(trace)
+            }
+        }
+    })
+}
+
+pub fn run_once_on<N: Name + 'static>(which: usize, reg: &Registry, root: (u32, u32), choose: &ChooseMode, prio: &PrioMode, script: &[u32], fault: &Fault) -> RunOut {
+    let (reg, choose, prio, script, fault) = (reg.clone(), choose.clone(), prio.clone(), script.to_vec(), fault.clone());
+    guarded(which, Box::new(move |slot| run_once_raw::<N>(&reg, root, &choose, &prio, &script, &fault, slot)))
+}
+pub fn run_once<N: Name + 'static>(reg: &Registry, root: (u32, u32), choose: &ChooseMode, prio: &PrioMode, script: &[u32], fault: &Fault) -> RunOut {
+    run_once_on::<N>(0, reg, root, choose, prio, script, fault)
 }
 
 /// the incompatibility store of the resolution that just finished on this thread (cfg hook)
@@ -279,6 +342,7 @@ fn nontrivial(o: &RunOut) -> bool {
 }
 
 pub fn emit_run(out: &mut Out, tag: &str, names: &str, reg: &Registry, root: (u32, u32), o: &RunOut, extra: &str) {
+    if o.result == "(skipped)" { return; }
     let tr: Vec<String> = o.trace.iter().map(ev_sx).collect();
     let case = format!("({} {} {} (root {} {}) (trace {}){})", tag, names, reg_sx(reg), root.0, root.1, tr.join(" "), extra);
     out.n += 1;
@@ -288,41 +352,17 @@ pub fn emit_run(out: &mut Out, tag: &str, names: &str, reg: &Registry, root: (u3
     writeln!(out.w, "{}\t(res {}) {}\t{}\t{:016x}", case, o.result, o.store, nontrivial(o) as u8, h).unwrap();
 }
 
-/// a long-lived second thread on which every case is repeated (thread-local state must not matter)
-pub struct Job { reg: Registry, root: (u32, u32), choose: ChooseMode, prio: PrioMode, script: Vec<u32>, strings: bool }
-thread_local! {
-    static WORKER: (std::sync::mpsc::Sender<Job>, std::sync::mpsc::Receiver<(Vec<Ev>, String, String, String)>) = {
-        let (tx, rx) = std::sync::mpsc::channel::<Job>();
-        let (tx2, rx2) = std::sync::mpsc::channel();
-        std::thread::spawn(move || {
-            std::panic::set_hook(Box::new(|_| {}));
-            for j in rx {
-                let o = if j.strings { run_once::<String>(&j.reg, j.root, &j.choose, &j.prio, &j.script, &Fault::None) }
-                        else { run_once::<u32>(&j.reg, j.root, &j.choose, &j.prio, &j.script, &Fault::None) };
-                if tx2.send((o.trace, o.result, o.report, o.store)).is_err() { break; }
-            }
-        });
-        (tx, rx2)
-    };
-}
-fn on_worker(reg: &Registry, root: (u32, u32), choose: &ChooseMode, prio: &PrioMode, script: &[u32], strings: bool) -> (Vec<Ev>, String, String, String) {
-    WORKER.with(|w| {
-        w.0.send(Job { reg: reg.clone(), root, choose: choose.clone(), prio: prio.clone(), script: script.to_vec(), strings }).unwrap();
-        w.1.recv().unwrap()
-    })
-}
-
 /// run with both name types, check in-process repeatability, emit
 pub fn run_and_emit(out: &mut Out, reg: &Registry, root: (u32, u32), choose: &ChooseMode, prio: &PrioMode, script: &[u32], strings: bool) -> RunOut {
     let a = run_once::<u32>(reg, root, choose, prio, script, &Fault::None);
-    // the repetition runs on a fresh thread (thread-local state must not matter either)
-    let b = on_worker(reg, root, choose, prio, script, false);
-    let det = a.trace == b.0 && a.result == b.1 && a.report == b.2 && a.store == b.3;
+    // the repetition runs on a second thread (thread-local state must not matter either)
+    let b = run_once_on::<u32>(1, reg, root, choose, prio, script, &Fault::None);
+    let det = unfinished(&a) || unfinished(&b) || (a.trace == b.trace && a.result == b.result && a.report == b.report && a.store == b.store);
     emit_run(out, "solve", "int", reg, root, &a, &format!(" (det {})", det as u8));
     if strings {
         let c = run_once::<String>(reg, root, choose, prio, script, &Fault::None);
-        let d = on_worker(reg, root, choose, prio, script, true);
-        let det = c.trace == d.0 && c.result == d.1 && c.report == d.2 && c.store == d.3;
+        let d = run_once_on::<String>(1, reg, root, choose, prio, script, &Fault::None);
+        let det = unfinished(&c) || unfinished(&d) || (c.trace == d.trace && c.result == d.result && c.report == d.report && c.store == d.store);
         emit_run(out, "solve", "str", reg, root, &c, &format!(" (det {})", det as u8));
     }
     a
